@@ -43,7 +43,8 @@ pub fn number_regex_parser(config: &SmartCalcConfig, tokinizer: &mut Tokinizer, 
             }
             else if let Some(decimal) = capture.name("DECIMAL") {
                 parse_end = decimal.end();
-                number = match decimal.as_str().replace(&config.thousand_separator[..], "").replace(&config.decimal_seperator[..], ".").parse::<f64>() {
+                /* A separator at the end of the literal ("june 5, 2020") is punctuation */
+                number = match decimal.as_str().trim_end_matches(|ch| ch == '.' || ch == ',').replace(&config.thousand_separator[..], "").replace(&config.decimal_seperator[..], ".").parse::<f64>() {
                     Ok(num) => {
                         number_match = Some(decimal);
                         match capture.name("NOTATION") {
